@@ -11,7 +11,8 @@
   The programs are `modelProgs Generated.sharedWrites sites calls`: shared cells where the CURRENT tree's table lists the
   site as racy, private copies where it does not.
   out: {"progs": [[step letter…]…] (event steps as the harness spells them, others "E"), "seq": [outcome…],
-        "runs": [[outcome|null…]…], "conflictFree": bool, "treeRacy": bool, "private": [cell…]}
+        "runs": [[outcome|null…]…], "conflictFree": bool (C20_partial applies), "sameValue": bool
+        (same_value_writes_linearizable applies), "noWrites": bool, "treeRacy": bool, "private": [cell…]}
 -/
 import Lean.Data.Json
 import TypedpyModel.Sem.Sched
@@ -131,12 +132,23 @@ def run (j : Json) : Except String Json := do
   let runs := scheds.map fun s =>
     let cfg := Typedpy.Sched.run (Cfg.init sh progs) (expand progs s ++ completion progs)
     Json.arr ((List.range n).map fun i => outcomeToJson (resultAt cfg i)).toArray
+  -- which positive theorem covers these programs (if any)
+  let writesOf : List (Nat × Nm) := progs.flatMap fun p => p.filterMap fun s => match s with
+    | .write c n => some (c, n)
+    | _ => none
+  let k : Nat → String := fun c => match writesOf.lookup c with
+    | some (.const v) => v
+    | _ => ""
+  let sameValue := progs.all fun p => uniformB k p && readsAfterOwnWrite [] p
+  let noWrites := progs.all fun p => p.all fun s => !s.writesShared
   let priv := (sites.filter fun p => tablePriv tbl sites p.1).map fun p => Json.num (Lean.JsonNumber.fromNat p.1)
   pure (Json.mkObj [
     ("progs", Json.arr (progs.map fun p => Json.arr (p.map fun s => Json.str (stepLetter s)).toArray).toArray),
     ("seq", Json.arr (progs.map fun p => outcomeToJson (sequentialResult sh p)).toArray),
     ("runs", Json.arr runs.toArray),
     ("conflictFree", .bool (conflictFreeB progs)),
+    ("sameValue", .bool sameValue),
+    ("noWrites", .bool noWrites),
     ("treeRacy", .bool (tbl.any fun r => !r.safe && r.readBack)),
     ("private", Json.arr priv.toArray)])
 
